@@ -55,8 +55,8 @@ func (c *c10) Step(w *sim.World, s *sim.Step) *Viol {
 	if s.OK() && from != holder {
 		return viol("C10", s.Idx, t+" took effect for a submitter who does not hold its role", "failure (holder "+holder+")", "success for "+from)
 	}
-	if v := strictVerdict("C10", s); v != nil {
-		return v
+	if from == holder && s.Exp != nil && !s.Exp.Soft && s.Exp.V == sim.MustSucceed && !s.OK() {
+		return viol("C10", s.Idx, t+" by the holder of its role with valid arguments must take effect", "success", "failure: "+s.Res.Log)
 	}
 	if v := unchanged("C10", s); v != nil {
 		return v
@@ -508,7 +508,8 @@ func flowName(s *sim.Step) string {
 	}
 	k := sim.KindOf(s.Msgs[0])
 	if k == "recv" {
-		if s.Op.Meta["module"] == "1" {
+		rm := s.Msgs[0].(*types.MsgReceiveMessage)
+		if len(rm.Message) >= 84 && eq(rm.Message[52:84], sim.Pad32(sim.ModuleAddrBytes())) {
 			return "receive-module"
 		}
 		return "receive-other"
@@ -523,7 +524,7 @@ func c12extra(c *strict, w *sim.World, s *sim.Step) *Viol {
 	if s.Op.Kind != "tx" || len(s.Msgs) != 1 {
 		return nil
 	}
-	if f := flowName(s); f != "" && s.Op.Meta["valid"] == "1" {
+	if f := flowName(s); f != "" {
 		blocked := s.Pre.SR
 		switch f {
 		case "dep", "depc", "repdep", "receive-module":
@@ -532,6 +533,9 @@ func c12extra(c *strict, w *sim.World, s *sim.Step) *Viol {
 		// table oracle, independent of the model's condition lists
 		if blocked && s.OK() {
 			return viol("C12", s.Idx, fmt.Sprintf("flow %s while SR=%v BM=%v", f, s.Pre.SR, s.Pre.BM), "blocked", "succeeded")
+		}
+		if s.Op.Meta["valid"] != "1" {
+			return nil // only the "must fail while paused" direction is judged for arbitrary inputs
 		}
 		if !blocked && !s.OK() && s.Exp != nil && s.Exp.V == sim.MustSucceed {
 			return viol("C12", s.Idx, fmt.Sprintf("flow %s with valid input while SR=%v BM=%v must not be blocked", f, s.Pre.SR, s.Pre.BM), "success", "failure: "+s.Res.Log)
@@ -545,8 +549,12 @@ func c12extra(c *strict, w *sim.World, s *sim.Step) *Viol {
 			}
 		}
 	}
-	if isAdmin(s.Msgs[0]) && (s.Pre.SR || s.Pre.BM) && s.OK() {
-		c.classes["admin-action-while-paused"]++
+	if isAdmin(s.Msgs[0]) && (s.Pre.SR || s.Pre.BM) {
+		if s.OK() {
+			c.classes["admin-action-while-paused"]++
+		} else if s.Exp != nil && !s.Exp.Soft && s.Exp.V == sim.MustSucceed {
+			return viol("C12", s.Idx, "administrative action "+s.Op.Label+" must stay available while paused", "success", "failure: "+s.Res.Log)
+		}
 	}
 	switch s.Msgs[0].(type) {
 	case *types.MsgPauseBurningAndMinting, *types.MsgPauseSendingAndReceivingMessages:
@@ -636,7 +644,13 @@ var C12 = register(&HistProp{ID: "C12",
 	},
 	MinOps: 4, MaxOps: 30,
 	New: func() Checker {
-		return &strict{id: "C12", applies: func(m sdk.Msg) bool { return true }, extra: c12extra, fields: []string{"flags"}}
+		return &strict{id: "C12", applies: func(m sdk.Msg) bool {
+			switch m.(type) {
+			case *types.MsgPauseBurningAndMinting, *types.MsgUnpauseBurningAndMinting, *types.MsgPauseSendingAndReceivingMessages, *types.MsgUnpauseSendingAndReceivingMessages:
+				return true
+			}
+			return false // flows are judged by the table oracle in c12extra, other admin actions only for availability
+		}, extra: c12extra, fields: []string{"flags"}}
 	},
 	Require: c12required()})
 
